@@ -939,6 +939,91 @@ func sliceOfU(v Val, recv string) (int64, int64, bool) {
 	return lo, hi, lo >= 0 && lo <= hi && hi <= 16
 }
 
+// appendedHexLayout: the elements of an append chain that starts from an empty slice, read as a layout.
+func appendedHexLayout(t *Terminal, app *AppendV, recv string) (string, string) {
+	var elems []Val
+	var cur Val = app
+	for {
+		a, ok := cur.(*AppendV)
+		if !ok {
+			break
+		}
+		if a.Spread {
+			return "", "append of a whole slice " + ap(a)
+		}
+		elems = append(append([]Val{}, a.Elems...), elems...)
+		cur = a.S
+	}
+	if !isEmptySliceValT(t, cur) {
+		if sl, ok := cur.(*SliceV); !ok || !isConstInt(sl.Hi, 0) {
+			return "", "the text does not start from an empty slice: " + ap(cur)
+		}
+	}
+	// the UUID byte a digit depends on
+	byteOf := func(v Val) (Val, int64) {
+		var in Val
+		k := int64(-1)
+		containsVal(v, func(y Val) bool {
+			if l, ok := y.(*LoadV); ok {
+				if ia, ok := l.Addr.(*IndexAddrV); ok && ap(ia.X) == recv {
+					if i, isC := constInt(ia.I); isC {
+						in, k = y, i
+					}
+				}
+			}
+			return false
+		})
+		return in, k
+	}
+	digit := func(v Val, in Val, x uint8) (byte, bool) {
+		iv, ok := v.(*IndexV)
+		if !ok {
+			return 0, false
+		}
+		tbl, ok := constString(iv.X)
+		if !ok {
+			return 0, false
+		}
+		i, ok := evalByte(iv.I, in, x)
+		if !ok || int(i) >= len(tbl) {
+			return 0, false
+		}
+		return tbl[i], true
+	}
+	const hexd = "0123456789abcdef"
+	var segs []laySeg
+	for i := 0; i < len(elems); i++ {
+		if ch, isC := constInt(elems[i]); isC {
+			if ch <= 0 || ch > 127 {
+				return "", "non-ASCII constant byte in the text"
+			}
+			segs = append(segs, laySeg{lit: true, ch: byte(ch)})
+			continue
+		}
+		in, k := byteOf(elems[i])
+		if in == nil || i+1 >= len(elems) {
+			return "", "unrecognised element " + ap(elems[i])
+		}
+		in2, k2 := byteOf(elems[i+1])
+		if in2 == nil || k2 != k {
+			return "", "the two digits of byte " + fmt.Sprint(k) + " are not adjacent"
+		}
+		for x := 0; x < 256; x++ {
+			hi, ok1 := digit(elems[i], in, uint8(x))
+			lo, ok2 := digit(elems[i+1], in2, uint8(x))
+			if !ok1 || !ok2 {
+				return "", "digit expression " + ap(elems[i]) + " / " + ap(elems[i+1]) + " cannot be evaluated"
+			}
+			if hi != hexd[x>>4] || lo != hexd[x&15] {
+				return "", fmt.Sprintf("byte %d with value %#02x renders as %q, want %q", k, x, string([]byte{hi, lo}), string([]byte{hexd[x>>4], hexd[x&15]}))
+			}
+		}
+		segs = append(segs, laySeg{lo: k, hi: k + 1})
+		i++
+	}
+	return renderLayout(segs), ""
+}
+
 // uuidLayout recognises three producers of the canonical text: fmt.Sprintf with a constant format of %x verbs and
 // literal bytes over slices of u; string(buf[:]) of a local byte array filled by hex.Encode(buf[a:b], u[c:d]) and
 // constant byte stores covering every position exactly once; a concatenation of hex.EncodeToString(u[c:d]) and
@@ -1053,6 +1138,11 @@ func uuidLayout(t *Terminal, recv string) (string, string) {
 		}
 		return renderLayout(segs), ""
 	case *ConvV:
+		if app, isApp := x.X.(*AppendV); isApp {
+			// string(out) of a byte slice grown by append from empty: constant bytes and digit-table lookups indexed by the
+			// two nibbles of one UUID byte; each lookup pair is evaluated for all 256 values of that byte
+			return appendedHexLayout(t, app, recv)
+		}
 		sl, ok := x.X.(*SliceV)
 		if !ok {
 			break
